@@ -10,6 +10,8 @@ import (
 	"math"
 	"os"
 	"reflect"
+	"strconv"
+	"strings"
 	"sync"
 	"time"
 )
@@ -725,3 +727,72 @@ func vfNow() int64                    { return time.Now().UnixNano() }
 func vfLockHeld(lock interface{}) int { return 2 }
 func vfMonitorWrites(lock interface{}, roots ...interface{}) {}
 func vfMonitorResult() (badWrites, badReads, writes, reads int) { return 0, 0, 1, 1 }
+
+func vfRunOnce(h func()) (crash string) {
+	defer func() {
+		if r := recover(); r != nil {
+			if _, ok := r.(vfStop); ok {
+				return
+			}
+			crash = fmt.Sprint(r)
+		}
+	}()
+	h()
+	return ""
+}
+
+
+// vfReplayMain replays every counterexample file named in VF_REPLAY (':'-separated) against the harness functions of
+// the registry and prints one VF-RESULT line per file.
+func vfReplayMain(vfRegistry map[string]func()) {
+	// VF_REPLAY is a ':'-separated list of replay files; one VF-RESULT line is printed per file.
+	attempts, _ := strconv.Atoi(os.Getenv("VF_ATTEMPTS"))
+	if attempts <= 0 {
+		attempts = 1
+	}
+	for ix, path := range strings.Split(os.Getenv("VF_REPLAY"), ":") {
+		vfState.data = vfReplayData{}
+		if err := vfLoad(path); err != nil {
+			fmt.Printf("VF-RESULT %d error %v\n", ix, err)
+			continue
+		}
+		h := vfRegistry[vfState.data.Harness]
+		if h == nil {
+			fmt.Printf("VF-RESULT %d error unknown harness %q\n", ix, vfState.data.Harness)
+			continue
+		}
+		want := vfState.data.Label
+		last := ""
+		found := false
+		n := 1
+		if vfState.data.Retry {
+			n = attempts
+		}
+		fmt.Printf("VF-BEGIN %d\n", ix)
+		for i := 0; i < n && !found; i++ {
+			vfResetRun()
+			vfCtlStart(vfState.data.Sched, vfState.data.BaseG)
+			crash := vfRunOnce(h)
+			vfCtlStop()
+			if vfCtl.diverged != "" {
+				vfState.diverged = vfCtl.diverged
+			}
+			if crash != "" && want == "crash" {
+				fmt.Printf("VF-RESULT %d reproduced label=crash attempt=%d panic=%q\n", ix, i, crash)
+				found = true
+				break
+			}
+			for _, f := range vfState.failed {
+				if f == want {
+					fmt.Printf("VF-RESULT %d reproduced label=%s attempt=%d logs=%q\n", ix, f, i, vfState.logs)
+					found = true
+					break
+				}
+			}
+			last = fmt.Sprintf("failed=%v crash=%q diverged=%q logs=%q", vfState.failed, crash, vfState.diverged, vfState.logs)
+		}
+		if !found {
+			fmt.Printf("VF-RESULT %d not-reproduced attempts=%d last: %s\n", ix, n, last)
+		}
+	}
+}
